@@ -7,6 +7,7 @@ CLAIMS = {
  'C09': ('proof', 'generate_dates and match_to_date for year-less dates: future = earliest occurrence on or after the reference date, past = latest strictly before, incl. 29 February (years 1950..2090); known finding KF-C09-* for a non-midnight reference on the day itself', 'regex layer assumed; see known_findings.json'),
  'C10': ('proof', 'luis_time_span denotes exactly end - begin; period unit counts and (start,end,P<n>D) triples', 'float N as real; regexes assumed'),
  'C11': ('proof', 'the validity / formatting guard layer every value passes through: is_valid_date == calendar validity, safe_create_* yield a valid datetime or the min-value marker, formatters produce well-formed YYYY-MM-DD / HH:MM:SS, to_pm stays within 00..23', 'value construction sites in base_*period.py are not individually under contract'),
+ 'C14': ('proof', 'per grammar alternative of the TIMEX datatype: the canonical string built from in-range fields parses (real TimexParsing/TimexRegex code, patterns matched by a structural regex model) to exactly those fields and formats back to the identical string; non-canonical accepted spellings re-parse to the same fields and formatting is idempotent; from_date / from_date_time / from_time give the canonical TIMEX', 're.match for the anchored TimexRegex patterns is modelled by pyvc/rxstruct.py over structured strings (validated against the real engine); str(Decimal) uninterpreted+injective and assumed amount-shaped; (start,end,duration) range strings not covered; known findings KF-C14-1/2'),
  'C15': ('proof', 'pre/postconditions on the real TimexResolver / TimexRangeResolver / TimexDateHelpers / TimexValue / TimexHelpers / TimexConstraintsHelper functions incl. loop invariant + termination for dates_matching_day and collapse for up to 3 ranges', 'Decimal as real; TIMEX string parsing (TimexRegex) outside these contracts; collapse/inner_collapse for list length <= 3 (the property quantifies over 1-3 constraints)'),
 }
 FIXED_NA = {'C18': "equality of two concrete artefacts decided only by running the generator (ruamel.yaml absent); not a contract over a function's inputs (DESIGN section 8)",
